@@ -1,11 +1,11 @@
 package main
 
 import (
-	"go/token"
-	"go/ast"
 	"fmt"
-	"math/big"
+	"go/ast"
+	"go/token"
 	"go/types"
+	"math/big"
 	"strings"
 
 	"golang.org/x/tools/go/ssa"
@@ -457,7 +457,6 @@ func (v *Verifier) freshLike(name string, cur Value) Value {
 	unsup("freshLike %T", cur)
 	return nil
 }
-
 
 // ---------- opaque calls ----------
 
